@@ -239,6 +239,7 @@ func (r *R) state(ctx sdk.Context) string {
 //
 //	n<dec> number at the feed's path   s<dec> the same as a JSON string   w<dec> number under another key
 //	t true  f false  u null  o {}  b<word> non-numeric string  m no body at all   err = result code 500, no output
+//	x truncated (invalid) JSON   h valid JSON without header  (both refused by the service module)
 func buildOutput(path, spec string) (string, string) {
 	if spec == "err" {
 		return `{"code":500,"message":"failed"}`, ""
@@ -265,6 +266,10 @@ func buildOutput(path, spec string) (string, string) {
 		v = `"` + spec[1:] + `"`
 	case 'm':
 		return `{"code":200,"message":""}`, fmt.Sprintf(`{"header":{"spec":"%s"}}`, spec)
+	case 'x': // not JSON: refused by MsgRespondService.ValidateBasic, never reaches a batch
+		return `{"code":200,"message":""}`, `{"header":{"spec":"x"},"body":`
+	case 'h': // JSON without the mandatory header: refused as well
+		return `{"code":200,"message":""}`, `{"body":{"last":1}}`
 	default:
 		hx.Fail("bad output spec %q", spec)
 	}
